@@ -1322,9 +1322,16 @@ struct array : static_array<T, D, Alloc> {
 			if constexpr(multi::allocator_traits<typename array::allocator_type>::propagate_on_container_copy_assignment::value) {
 				this->alloc() = other.alloc();
 			}
+			// allocate before adopting the layout: if the allocation throws, *this stays empty (and valid)
+			this->base_ = array::array_alloc::allocate(static_cast<typename multi::allocator_traits<typename array::allocator_type>::size_type>(other.num_elements()));
 			this->layout_mutable() = other.layout();
-			array::allocate();
-			array::uninitialized_copy_elements(other.data_elements());
+			try {
+				array::uninitialized_copy_elements(other.data_elements());
+			} catch(...) {  // the copied elements were rolled back: give the block back and stay empty
+				this->deallocate();
+				this->layout_mutable() = typename array::layout_type(typename array::extensions_type{});
+				throw;
+			}
 		}
 		return *this;
 	}
